@@ -1437,5 +1437,10 @@ func (e *Exec) checkWrite(o *Object) {
 	}
 	if o.Kind == "global" && e.initDone {
 		e.globalWr[o.Site] = true
+		if e.barrier > 0 {
+			// state shared by every call: no native twin can show it without a
+			// scheduler, so the run is inconclusive rather than a violation
+			e.note("unconfirmed:store to package-level variable " + o.Site + " under the write barrier")
+		}
 	}
 }
